@@ -872,6 +872,39 @@ def reused_assign_object(col, rng):
                               'glom(targets, [Assign(%r, T[v]%s)]) -> %s' % (path, ', missing=dict' if missing else '', short(targets if got.ok else got, 400)), None)
 
 
+def reused_assign_object_with_a_scope_destination(col):
+    """one Assign object whose destination is rooted at the scope (S[..]..), evaluated several times - per list element, in successive
+    calls, with and without missing=: every evaluation writes ITS value into the scope variable of ITS call, never into the target"""
+    progs = [
+        ("[Assign(S['acc'][T['k']], T['v'])] per element", lambda a: (S(acc={}), [a], S['acc']), lambda: Assign(S['acc'][T['k']], T['v']),
+         [{'k': 'a', 'v': 1, 'acc': 'target-key'}, {'k': 'b', 'v': 2}, {'k': 'c', 'v': 3}], {'a': 1, 'b': 2, 'c': 3}, 'list'),
+        ("Assign(S['box']['slot'], T['v']) in successive calls", lambda a: (S(box={}), a, S['box']), lambda: Assign(S['box']['slot'], T['v']),
+         [{'v': 1, 'box': {'slot': 'in-target'}}, {'v': 2, 'box': {}}, {'v': 3}], [{'slot': 1}, {'slot': 2}, {'slot': 3}], 'calls'),
+        ("Assign(S['box']['l1']['l2'], T['v'], missing=dict) in successive calls", lambda a: (S(box={}), a, S['box']), lambda: Assign(S['box']['l1']['l2'], T['v'], missing=dict),
+         [{'v': 1}, {'v': 2, 'box': {}}, {'v': 3}], [{'l1': {'l2': 1}}, {'l1': {'l2': 2}}, {'l1': {'l2': 3}}], 'calls'),
+        ("Assign(S['v'], T['v']) in successive calls", lambda a: (a, S['v']), lambda: Assign(S['v'], T['v']), [{'v': 1}, {'v': 2}], [1, 2], 'calls'),
+    ]
+    import copy
+    for desc, wrap, mk, targets, want, how in progs:
+        a = mk()
+        spec = wrap(a)
+        before = copy.deepcopy(targets)
+        if how == 'list':
+            got = call(G, targets, spec)
+            ok = got.ok and got.value == want
+            shown = got
+        else:
+            outs = [call(G, t, spec) for t in targets]
+            ok = all(o.ok for o in outs) and [o.value for o in outs] == want
+            shown = outs
+        col.case(('reused-assign-scope-destination', desc), True)
+        col.count('assignments_attempted', len(targets))
+        col.count('successful_edits', len(targets))
+        if not ok or targets != before:
+            col.violation('C11/reused-assign-object-with-a-scope-destination', '%s with ONE Assign object: %s (expected %r); targets %s'
+                          % (desc, short(repr(shown), 300), want, 'unchanged' if targets == before else 'CHANGED to %s' % short(targets, 200)), None)
+
+
 class _Vault:
     """children reachable only through the get handler a Glommer registers for it (no attributes, no __getitem__)"""
     __slots__ = ('_cells',)
@@ -934,6 +967,7 @@ def run(ctx):
         sequences_that_refuse_assignment(col)
         deep_wildcards(col, rng)
         reused_assign_object(col, rng)
+        reused_assign_object_with_a_scope_destination(col)
         missing_before_wildcard(col)
         wildcard_value_is_evaluated_once(col)
         assign_runs_in_the_context_of_the_call(col)
